@@ -1,6 +1,8 @@
 import ScenicModel.Props.C20Links
 import ScenicModel.Props.C20Lookup
 import ScenicModel.Props.C20Cache
+import ScenicModel.Props.C20Direction
+import ScenicModel.Props.C20Adjacency
 import ScenicModel.Gen.Roads
 /-!
 # C20 — road networks are internally consistent: property theorems on the data regenerated from /repo
@@ -17,14 +19,20 @@ Generic theorems (proved for every network / point / file):
 * `lookup_sound`, `lookup_first`, `lookup_complete`, `lookup_exact_priority`,
   `lookup_zero_tolerance`, `elementAt_priority`, `lane_in_road_found` — Props/C20Lookup.lean;
 * `fromPickle_ok_iff`, `cache_used_iff_keys_equal`, `cache_never_raises`, `dump_load_roundtrip`,
-  `second_load_uses_cache`, `options_preimage_injective` — Props/C20Cache.lean.
+  `second_load_uses_cache`, `options_preimage_injective`, and the path handling in front of the
+  cache (`path_map_is_core`, `path_noext_prefers_map`, `path_noext_only_cache`, `path_errors`,
+  `path_pickled_direct`) — Props/C20Cache.lean;
+* `direction_of_unique_lane`, `nominal_in_intersection`, `found_section_owned`,
+  `found_group_owned`, `elem_lookup_sound` — Props/C20Direction.lean;
+* `adj_left_reciprocal`, `adj_right_reciprocal`, `adj_faster_slower`, `adj_slower_faster`,
+  `adj_adjacent_symmetric`, `sectionOrder_spec` — Props/C20Adjacency.lean.
 
 Not proved (explored by the check on every shipped map): the geometric clauses — that the exported
 containment facts come from polygons in which children lie inside their parents, that the drivable
 area is covered, that the reported direction is the tangent of the nearest centreline segment.
 -/
 namespace Scenic.C20
-open Scenic.Roads Scenic.RoadCache Scenic.Gen.Roads
+open Scenic.Roads Scenic.RoadCache Scenic.RoadAdj Scenic.Gen.Roads
 
 /-! ### side conditions on the generated data -/
 
@@ -52,6 +60,30 @@ theorem gen_lookups :
 /-- separators of `deterministicHash`: `\0K` before a key, `\0V` before a value -/
 theorem gen_hash_wf : hashCfg.sepKey = [0, 75] ∧ hashCfg.sepVal = [0, 86] ∧ hashCfg.placeholder = [0] := by
   decide
+
+
+/-- the `…At` methods of network elements search the documented lists -/
+theorem gen_elem_lookups :
+    elemLookups.lookup "Road.sectionAt" = some { owner := .road, first := .sections } ∧
+    elemLookups.lookup "Road.laneAt" = some { owner := .road, first := .lanes } ∧
+    elemLookups.lookup "Road.laneGroupAt" = some { owner := .road, first := .groups } ∧
+    elemLookups.lookup "LaneGroup.laneAt" = some { owner := .laneGroup, first := .lanes } ∧
+    elemLookups.lookup "Lane.sectionAt" = some { owner := .lane, first := .sections } ∧
+    elemLookups.lookup "RoadSection.laneAt" = some { owner := .roadSection, first := .lanes } ∧
+    elemLookups.lookup "Road.laneSectionAt" = some { owner := .road, first := .lanes, child := some .sections } := by
+  decide
+
+/-- the heading of a road is taken from a lane group found by `laneGroupAt`, that of a lane group from a
+lane found by `laneAt` (the lists `headingSource` of the model descends through) -/
+theorem gen_heading_chain : headingChain = [(.road, .groups), (.laneGroup, .lanes)] := by decide
+
+/-- `handlers` lists the map format before the cache format; missing file / unknown extension errors -/
+theorem gen_path_wf : PathWF pathCfg ∧ pathCfg.notFoundErr = .fileNotFound ∧ pathCfg.unknownErr = .valueError := by
+  unfold PathWF; decide
+
+/-- the `leftID` / `rightID` chains and the faster / slower assignment of `toScenicRoad` are the ones the
+adjacency theorems are proved for -/
+theorem gen_adj : adjCfg = refCfg := by decide
 
 /-! ### the theorems on the generated data -/
 
@@ -136,6 +168,85 @@ theorem gen_options_injective (a b : List (Bytes × Option Bytes)) (ha : Plain a
     (h : encodeOptions hashCfg a = encodeOptions hashCfg b) : a = b :=
   options_preimage_injective hashCfg gen_hash_wf.1 gen_hash_wf.2.1 a b ha hb h
 
+
+/-- the direction clause on the generated data: at a point of exactly one lane (children in parents,
+parents covered, no intersection containing it) `roadDirection` and `nominalDirectionsAt` use the
+centreline of that lane -/
+theorem gen_direction_of_unique_lane (n : Network) (tolPos : Bool) (pf : PointFacts) (l : Nat) (d : LookupDef)
+    (hd : lookups.lookup "nominalDirElem" = some d)
+    (hroad : ∀ r ∈ n.field .roads 0, n.kindOf r = some .road)
+    (hnoint : ∀ x ∈ n.field .intersections 0, x ∉ pf.exact)
+    (hup : ∀ r ∈ n.field .roads 0, ∀ g ∈ n.field .groups r, ∀ l' ∈ n.field .lanes g,
+      l' ∈ pf.exact → r ∈ pf.exact)
+    (hcovR : ∀ r ∈ n.field .roads 0, r ∈ pf.exact → ∃ g ∈ n.field .groups r, g ∈ pf.exact)
+    (hcovG : ∀ r ∈ n.field .roads 0, ∀ g ∈ n.field .groups r, g ∈ pf.exact →
+      ∃ l' ∈ n.field .lanes g, l' ∈ pf.exact)
+    (huniq : ∀ r ∈ n.field .roads 0, ∀ g ∈ n.field .groups r, ∀ l' ∈ n.field .lanes g,
+      l' ∈ pf.exact → l' = l)
+    (hl : ∃ r ∈ n.field .roads 0, ∃ g ∈ n.field .groups r, l ∈ n.field .lanes g ∧ l ∈ pf.exact) :
+    roadDirSource passes n tolPos pf d = some (.elem l) ∧ nominalSources passes n tolPos pf d = [.elem l] := by
+  have hd' := gen_lookups.2.2.2.2.2.2
+  rw [hd] at hd'
+  cases hd'
+  rw [gen_passes]
+  exact direction_of_unique_lane n tolPos pf l hroad hnoint hup hcovR hcovG huniq hl
+
+theorem gen_found_section_owned (n : Network) (tolPos : Bool) (pf : PointFacts) (s : Nat) (ds dl : LookupDef)
+    (hds : lookups.lookup "laneSectionAt" = some ds) (hdl : lookups.lookup "laneAt" = some dl)
+    (hs : lookupWith passes n tolPos pf ds = some s) :
+    ∃ l, lookupWith passes n tolPos pf dl = some l ∧ l ∈ n.field .lanes 0 ∧ s ∈ n.field .sections l ∧
+      (Reciprocal n → n.kindOf 0 = some .network →
+        n.field .lane s = [l] ∧ n.field .group s = n.field .group l ∧ n.field .road s = n.field .road l) := by
+  have h1 := gen_lookups.2.2.2.1
+  have h2 := gen_lookups.2.2.1
+  rw [hds] at h1; rw [hdl] at h2
+  cases h1; cases h2
+  rw [gen_passes] at hs ⊢
+  exact found_section_owned n tolPos pf s hs
+
+theorem gen_found_group_owned (n : Network) (tolPos : Bool) (pf : PointFacts) (g : Nat) (dg dr : LookupDef)
+    (hdg : lookups.lookup "laneGroupAt" = some dg) (hdr : lookups.lookup "roadAt" = some dr)
+    (hg : lookupWith passes n tolPos pf dg = some g) :
+    ∃ r, lookupWith passes n tolPos pf dr = some r ∧ g ∈ n.field .groups r ∧
+      (Reciprocal n → n.kindOf 0 = some .network → n.field .road g = [r]) := by
+  have h1 := gen_lookups.2.2.2.2.1
+  have h2 := gen_lookups.2.1
+  rw [hdg] at h1; rw [hdr] at h2
+  cases h1; cases h2
+  rw [gen_passes] at hg ⊢
+  exact found_group_owned n tolPos pf g hg
+
+/-- the adjacency assignments of the current `toScenicRoad` are reciprocal for every set of lane ids -/
+theorem gen_adj_reciprocal (dr : Bool) (ids : List Int) (id j : Int) (hid : id ∈ ids) (h0 : id ≠ 0) :
+    ((adjOf adjCfg dr ids id).left = some j →
+      j ∈ ids ∧ j ≠ 0 ∧ j ≠ id ∧
+      (isForward j = isForward id → (adjOf adjCfg dr ids j).right = some id) ∧
+      (isForward j ≠ isForward id → (adjOf adjCfg dr ids j).left = some id)) ∧
+    ((adjOf adjCfg dr ids id).right = some j →
+      j ∈ ids ∧ j ≠ 0 ∧ j ≠ id ∧ isForward j = isForward id ∧ (adjOf adjCfg dr ids j).left = some id) ∧
+    ((adjOf adjCfg dr ids id).faster = some j →
+      isForward j = isForward id ∧ (adjOf adjCfg dr ids j).slower = some id) ∧
+    ((adjOf adjCfg dr ids id).slower = some j →
+      isForward j = isForward id ∧ (adjOf adjCfg dr ids j).faster = some id) ∧
+    (j ∈ (adjOf adjCfg dr ids id).adjacent → j ≠ id ∧ id ∈ (adjOf adjCfg dr ids j).adjacent) := by
+  rw [gen_adj]
+  refine ⟨adj_left_reciprocal dr ids id j hid h0, adj_right_reciprocal dr ids id j hid h0, ?_, ?_,
+    adj_adjacent_symmetric dr ids id j hid h0⟩
+  · intro h; have := adj_faster_slower dr ids id j hid h0 h; exact ⟨this.1, this.2.1⟩
+  · intro h; have := adj_slower_faster dr ids id j hid h0 h; exact ⟨this.1, this.2.1⟩
+
+/-- the path handling of the current `fromFile`: no extension → the map if it exists; a `.snet` path is
+loaded directly without digest comparison -/
+theorem gen_path {α : Type} (unpickle : Bytes → Option α) (parse : α) (useCache : Bool) (digest : Bytes)
+    (cacheFile : Option Bytes) (optDigest : Bytes) :
+    fromFilePath cacheCfg pathCfg .fileNotFound unpickle parse useCache .none (some digest) cacheFile optDigest =
+      fromFile cacheCfg unpickle parse useCache cacheFile digest optDigest ∧
+    fromFilePath cacheCfg pathCfg .fileNotFound unpickle parse useCache .map (some digest) cacheFile optDigest =
+      fromFile cacheCfg unpickle parse useCache cacheFile digest optDigest := by
+  have hp := gen_path_wf.1
+  rw [path_noext_prefers_map cacheCfg pathCfg hp, path_map_is_core cacheCfg pathCfg hp]
+  exact ⟨rfl, rfl⟩
+
 /-! ### examples: the hypotheses are satisfiable, the statements are not vacuous -/
 
 /-- a one-road network: network, road, forward group, two adjacent lanes, one road section, two lane sections -/
@@ -197,5 +308,47 @@ example : Plain [([97], some [98])] := by
   simp at hkv
   subst hkv
   exact ⟨by intro x hx; simp at hx; subst hx; decide, [98], rfl, by intro x hx; simp at hx; subst hx; decide⟩
+
+-- direction: on `demoNet` a point inside lane 3 (and its group 2 and road 1) gets its direction from lane 3,
+-- even though lane 4 is within tolerance; the hypotheses of `direction_of_unique_lane` hold there
+example : roadDirSource passes demoNet true { exact := [1, 2, 3, 6], near := [1, 2, 3, 4, 6, 7] }
+    { first := [[.intersections], [.roads], [.shoulders]] } = some (.elem 3) := by decide +kernel
+example : nominalSources passes demoNet true { exact := [], near := [1, 2, 4] }
+    { first := [[.intersections], [.roads], [.shoulders]] } = [.elem 4] := by decide +kernel
+-- a road found only within tolerance whose groups are out of reach: the road's own centreline
+example : roadDirSource passes demoNet true { exact := [], near := [1] }
+    { first := [[.intersections], [.roads], [.shoulders]] } = some (.elem 1) := by decide +kernel
+
+/-- an intersection (1) with two maneuvers (4, 5) whose connecting lanes are 2 and 3 -/
+def demoJunction : Network := { elems := #[
+  { kind := .network, fields := [(.intersections, [1])] },
+  { kind := .intersection, fields := [(.maneuvers, [4, 5])] },
+  { kind := .lane }, { kind := .lane },
+  { kind := .maneuver, fields := [(.conn, [2]), (.inter, [1])] },
+  { kind := .maneuver, fields := [(.conn, [3]), (.inter, [1])] }] }
+
+example : nominalSources passes demoJunction true { exact := [1, 3], near := [1, 2, 3] }
+    { first := [[.intersections], [.roads], [.shoulders]] } = [.elem 3] := by decide +kernel
+example : nominalSources passes demoJunction true { exact := [1], near := [1, 2, 3] }
+    { first := [[.intersections], [.roads], [.shoulders]] } = [.elem 2, .elem 3] := by decide +kernel
+example : nominalSources passes demoJunction true { exact := [1], near := [1] }
+    { first := [[.intersections], [.roads], [.shoulders]] } = [.closestOf 1] := by decide +kernel
+example : roadDirSource passes demoJunction true { exact := [1, 3], near := [1, 2, 3] }
+    { first := [[.intersections], [.roads], [.shoulders]] } = some (.closestOf 1) := by decide +kernel
+
+-- `laneSectionAt` / `laneGroupAt` on `demoNet`: owned by what `laneAt` / `roadAt` return
+example : lookupWith passes demoNet true { exact := [1, 2, 4, 7], near := [] } { first := [[.lanes]], child := some [[.sections]] }
+    = some 7 := by decide +kernel
+example : demoNet.kindOf 0 = some .network := by decide +kernel
+
+-- path handling: both files present, path without extension, stale cache → parsed; `.snet` path → the stale cache itself
+example : fromFilePath cacheCfg pathCfg .fileNotFound (fun _ => some 1) 2 true .none (some (List.replicate 64 7))
+    (some (header cacheCfg (List.replicate 64 9) (List.replicate 8 9))) (List.replicate 8 9) = .parsed 2 := by decide +kernel
+example : fromFilePath cacheCfg pathCfg .fileNotFound (fun _ => some 1) 2 true .pickled (some (List.replicate 64 7))
+    (some (header cacheCfg (List.replicate 64 9) (List.replicate 8 9))) (List.replicate 8 9) = .cached 1 := by decide +kernel
+example : fromFilePath cacheCfg pathCfg .fileNotFound (fun _ => some 1) 2 true .none none none [] = .raised .fileNotFound := by
+  decide +kernel
+example : fromFilePath cacheCfg pathCfg .fileNotFound (fun _ => some 1) 2 true .unknown (some []) none [] = .raised .valueError := by
+  decide +kernel
 
 end Scenic.C20
